@@ -62,7 +62,7 @@ CharsetOf(ct) ==
                     LET nv == Split2(TrimAsciiWs(parts[k]), EQ)
                     IN Len(nv) = 2 /\ LowerSeq(nv[1]) = bCharset}
     IN IF cand = {} THEN <<FALSE, <<>> >>
-       ELSE LET k == CHOOSE i \in cand : \A j \in cand : i <= j
+       ELSE LET k == Min(cand)
             IN <<TRUE, Split2(TrimAsciiWs(parts[k]), EQ)[2]>>
 
 ------------------------------------------------------------------------------
@@ -78,7 +78,7 @@ AuthHeaderParse(a0, hdrs) ==
         \* last occurrence wins
         Has(key) == \E k \in 1..Len(kv) : Len(kv[k]) = 2 /\ kv[k][1] = key
         Get(key) == LET S == {k \in 1..Len(kv) : kv[k][1] = key}
-                    IN kv[CHOOSE k \in S : \A j \in S : j <= k][2]
+                    IN kv[Max(S)][2]
         hasDate == HasHeader(hdrs, bXAmzDateL) \/ HasHeader(hdrs, bDateL)
     IN IF alg # bAlgorithm THEN [err |-> Err(6, "IncompleteSignature")]
        ELSE IF \E k \in 1..Len(kv) : Len(kv[k]) # 2 THEN [err |-> Err(7, "IncompleteSignature")]
